@@ -30,6 +30,30 @@ CHECKS = {
   text="For every source in C09's space plus layout families (trailing comments, several statements per line, multi-line tokens, blank runs) that the formatter accepts: FmtDiffs returns without failure; edits ascending, non-overlapping, 0<=from<=to<=#lines; applying them bottom-up to the line array equals Fmt(source) modulo trailing blank lines; the LSP astFormatter offers the same ranges and texts.",
   note="edit semantics taken from genlsp/format.go (whole-line ranges); astFormatter reached through an overlay-only export shim",
   design="3/C19"),
+ "C01": dict(
+  engine="E1",
+  technique=TECH_E1 + "; every (kind x label x context) schema and every ordered field pair x every message in the product of boundary value alphabets, oracle decode(encode(m)) == m",
+  text="Every single-field message type over 23 field kinds x 4 labels x 8 contexts (top, nested, flattened, oneof arm, array element, map value, scalar oneof arm, exposed oneof) and every ordered pair of top-level fields over a 14-kind alphabet, built as raw proto descriptors, is round-tripped for every message in the product of the per-field boundary alphabets (integer extremes, escapes / controls / non-BMP text, float extremes, base64 edge bytes, date/timestamp/decimal boundaries, every enum option incl. gaps and prefix-like names, list and map shapes, optional-with-zero): encode succeeds, decode of the output succeeds, decoded == original under the property's normalisation.",
+  note="values outside the alphabets, >2 top-level fields, nesting >2 not covered; j5s-compiled schemas are exercised by the compiler checks, not here",
+  design="3/C01"),
+ "C03": dict(
+  engine="E1",
+  technique=TECH_E1 + "; documented spelling variations and exactly-one-fault injection at every node of every canonical document",
+  text="For the canonical document (independent reference encoder) of every message of C01's single-field corpus and a slice of the pair corpus: white space, reversed member order, explicit nulls, every alternate spelling at every leaf (quoted/bare numbers incl. decimal and 64-bit extremes, 4 base64 forms, enum prefix, timestamp offsets) and scalars as url.Values must decode to the same message as the canonical spelling (strict equality) and to the original; and one fault per node from the listed classes (wrong JSON type, unparsable / out-of-range numbers quoted and bare, invalid base64/date/decimal/timestamp, unknown enum name, unknown key, two keys in a oneof, contradicting or unknown \"!type\", scalar for array) must be rejected with an error.",
+  note="single variation / single fault per document; Any payload internals are opaque and not varied",
+  design="3/C03"),
+ "C06": dict(
+  engine="E1",
+  technique=TECH_E1 + "; all JSON token sequences up to a length bound per target type, shape matrix, all prefixes / byte substitutions, nesting bombs, url.Values menus; crash / hang oracle with subprocess isolation",
+  text="No panic, runtime fatal, stack exhaustion or hang for: every concatenation of <=4 (quick) / <=5 (thorough) tokens of a 16-symbol JSON alphabet into 12 target types (every structural kind incl. recursive types and a oneof root); every kind x label x context schema x 45 JSON values of depth <=2 in the field position; every prefix and every single-byte substitution (12 bytes) of a canonical document per schema; nesting bombs to depth 10^4 (10^5 thorough) through every recursive path, 10^5-digit numbers / keys / escapes; url.Values with 22 keys x 12 value lists per schema and all key pairs of a 17-key menu.",
+  note="termination by a 120 s watchdog; url.Values iteration order inside QueryToProto is a Go map order that is repeated, not owned",
+  design="3/C06"),
+ "C08": dict(
+  engine="E1",
+  technique=TECH_E1 + "; C01's enumeration, oracle = strict JSON re-read matched against an independent reference encoder; 2-step histories on one codec",
+  text="Every encoding of C01's corpus is re-read with a strict tokenizer (one value, no trailing data, number/string distinction kept) and matched against a reference encoder written from the README table: bare 32-bit ints / floats / bools, quoted 64-bit ints and decimals, padded std base64, RFC 3339 UTC timestamps, zero-padded dates, short enum names, oneof = {\"!type\", arm}, Any = {\"!type\", \"value\"}, flattened members inlined, unset members omitted, schema JSON names, no duplicate members. History oracles: bytes returned by an earlier call stay intact after the next call on the same codec; EncodeAny followed by encoding the parent. Non-representable values (NaN, +-Inf, year 0/10000, month 13, nanos out of range, undefined enum number, invalid UTF-8) must fail or still give valid JSON.",
+  note="member order and float digits unconstrained (not documented)",
+  design="3/C08"),
 }
 
 PENDING = {
